@@ -3,7 +3,8 @@
 
   Model: `BumpProof/Pool/Model.lean` (`/repo/src/bump_pool.rs`).  A history is a `List Step`: one
   linearisation of the critical sections (`get*`, guard drop, `mem::forget` of a guard, allocation
-  through a guard, and — only when no guard is live, as `&mut self`/`self` enforce — `reset`,
+  through a guard, `get*` calls whose construction is refused or PANICS inside the critical section
+  (poisoning the mutex), and — only when no guard is live, as `&mut self`/`self` enforce — `reset`,
   `reset_to_start`, drop of the pool) of an execution with ANY number of guards and threads.  Every
   theorem below quantifies over all histories `h` that the model accepts from a new pool
   (`run init h = .ok s`; the rejected ones use a guard that does not exist, reuse the id of a live
@@ -80,7 +81,7 @@ theorem no_shared_arena {h : List Step} {s : State} (hr : run init h = .ok s)
   exact key _ hown h₁ h₂
 
 /-- non-vacuity: three guards on two threads' worth of interleaving; the history is accepted -/
-example : (run init [.get 0 true, .get 1 true, .alloc 0 7, .put 0, .get 2 true, .alloc 2 8, .put 1, .put 2]).isOk = true := by
+example : (run init [.get 0 .ok, .get 1 .ok, .alloc 0 7, .put 0, .get 2 .ok, .alloc 2 8, .put 1, .put 2]).isOk = true := by
   decide
 
 /-! ## (2) Reuse before create; no arena is lost -/
@@ -96,9 +97,9 @@ theorem creates_only_when_idle_empty {s s' : State} {st : Step} {o : Out} (e : s
 
 /-- The arena most recently returned by a dropped guard is what the next `get*` hands out (no arena is
     constructed while a returned one waits). -/
-theorem returned_arena_is_reused_first {s s₁ s₂ : State} {g g' : GuardId} {ok : Bool} {a : ArenaId} {o₁ o₂ : Out}
+theorem returned_arena_is_reused_first {s s₁ s₂ : State} {g g' : GuardId} {c : Create} {a : ArenaId} {o₁ o₂ : Out}
     (ha : arenaOf g s.owned = some a) (e₁ : step s (.put g) = .ok (s₁, o₁))
-    (e₂ : step s₁ (.get g' ok) = .ok (s₂, o₂)) : o₂ = .got a false := by
+    (e₂ : step s₁ (.get g' c) = .ok (s₂, o₂)) : o₂ = .got a false := by
   simp only [step] at e₁ e₂
   unfold put at e₁
   split at e₁; · cases e₁
@@ -145,12 +146,12 @@ theorem idle_plus_live {h : List Step} {s : State} (hr : run init h = .ok s) :
 
 /-- non-vacuity + tightness: two guards live at once, then two more gets one at a time (the second with a
     base allocator that would refuse a new arena — it is not asked): two arenas, peak 2 -/
-example : (runLog init [.get 0 true, .get 1 true, .put 0, .put 1, .get 2 true, .put 2, .get 3 false, .put 3]).toOption.map
+example : (runLog init [.get 0 .ok, .get 1 .ok, .put 0, .put 1, .get 2 .ok, .put 2, .get 3 .fail, .put 3]).toOption.map
     (fun r => (r.1.created, peakLive r.2)) = some (2, 2) := by decide
 
 /-- the reading of "live" matters for `mem::forget`: a forgotten guard is never dropped, its arena never
     comes back, so it keeps counting as live (otherwise one guard at a time could create two arenas) -/
-example : (runLog init [.get 0 true, .forget 0, .get 1 true]).toOption.map
+example : (runLog init [.get 0 .ok, .forget 0, .get 1 .ok]).toOption.map
     (fun r => (r.1.created, peakLive r.2, r.1.owned.length)) = some (2, 2, 1) := by decide
 
 /-! ## (3) Stability of what was allocated through a guard -/
@@ -195,7 +196,7 @@ theorem survives_handover {h₂ : List Step} {m s : State} {g : GuardId} {t : Ta
   · cases e
 
 /-- non-vacuity: guard 0 writes 7, is dropped, guard 1 (another thread) gets the same arena and writes 8 -/
-example : (run init [.get 0 true, .alloc 0 7, .put 0, .get 1 true, .alloc 1 8, .put 1]).toOption.map
+example : (run init [.get 0 .ok, .alloc 0 7, .put 0, .get 1 .ok, .alloc 1 8, .put 1]).toOption.map
     (fun s => ((s.arenas 0).tags, s.created)) = some ([7, 8], 1) := by decide
 
 /-! ## (4) `reset`, `reset_to_start`, drop of the pool reach every arena, each exactly once -/
@@ -254,12 +255,81 @@ theorem idle_is_everything {h : List Step} {s : State} (hr : run init h = .ok s)
   simpa [State.all, hown, hleak] using this
 
 /-- non-vacuity: two arenas with contents, all guards dropped, then reset, a rewind and drop -/
-example : (run init [.get 0 true, .get 1 true, .alloc 0 1, .alloc 1 2, .put 1, .put 0, .reset, .get 2 true, .alloc 2 3, .put 2,
+example : (run init [.get 0 .ok, .get 1 .ok, .alloc 0 1, .alloc 1 2, .put 1, .put 0, .reset, .get 2 .ok, .alloc 2 3, .put 2,
     .resetToStart, .drop]).toOption.map
     (fun s => ((s.arenas 0).resets, (s.arenas 1).resets, (s.arenas 0).rewinds, (s.arenas 1).drops, (s.arenas 0).tags.length, (s.arenas 2).drops)) =
     some (1, 1, 1, 1, 0, 0) := by decide
 
 /-- the `&mut self` gate: a pool with a live guard cannot be reset (the model rejects the history) -/
-example : (run init [.get 0 true, .reset]).toOption.isNone = true := by decide
+example : (run init [.get 0 .ok, .reset]).toOption.isNone = true := by decide
+
+/-! ## (5) A `get*` that fails or panics changes nothing; a poisoned mutex changes nothing
+
+  `pool.get_with_size(usize::MAX)` / `get_with_capacity(huge)` with no idle arena panic ("capacity
+  overflow") while the lock guard temporary is alive, which poisons the mutex.  `lock()` and `bumps()`
+  recover with `PoisonError::into_inner`.  All theorems of (1)–(4) already quantify over histories
+  containing such calls (`Step.get g .panic`); the statements below say what the call itself does and
+  that nothing afterwards depends on the poison flag — in particular a guard dropped afterwards still
+  returns its arena to the pool. -/
+
+/-- A panicking `get*` either finds an idle arena (then it behaves like any other `get*` and nothing is
+    constructed, so nothing panics) or leaves idle stack, guards, leaked arenas, arena count and all arena
+    contents exactly as they were and yields no guard. -/
+theorem panicking_get_changes_nothing {s s' : State} {g : GuardId} {o : Out}
+    (e : step s (.get g .panic) = .ok (s', o)) :
+    (s.idle = [] ∧ o = .panicked ∧ s'.unpoison = s.unpoison ∧ s'.poisoned = true) ∨
+    (∃ a rest, s.idle = a :: rest ∧ o = .got a false ∧ s'.poisoned = s.poisoned) := by
+  simp only [step] at e; unfold Pool.get at e
+  split at e; · cases e
+  split at e; · cases e
+  split at e
+  · rename_i a rest hidle
+    cases e; exact Or.inr ⟨a, rest, hidle, rfl, rfl⟩
+  · rename_i hidle
+    simp only at e
+    cases e; exact Or.inl ⟨hidle, rfl, rfl, rfl⟩
+
+/-- A refused construction (`try_get*` returning `Err`) leaves the pool exactly as it was. -/
+theorem failed_get_changes_nothing {s s' : State} {g : GuardId} {c : Create}
+    (e : step s (.get g c) = .ok (s', .failed)) : s' = s ∧ s.idle = [] ∧ c = .fail := by
+  simp only [step] at e; unfold Pool.get at e
+  split at e; · cases e
+  split at e; · cases e
+  split at e
+  · cases e
+  · rename_i hidle
+    cases c <;> simp only at e <;> cases e
+    exact ⟨rfl, hidle, rfl⟩
+
+/-- Dropping a guard pushes its arena onto the idle stack — whatever the poison flag says — and neither
+    drops nor alters any arena. -/
+theorem guard_drop_returns_arena {s s' : State} {g : GuardId} {a : ArenaId} {o : Out}
+    (ha : arenaOf g s.owned = some a) (e : step s (.put g) = .ok (s', o)) :
+    s'.idle = a :: s.idle ∧ s'.arenas = s.arenas ∧ s'.created = s.created ∧ s'.leaked = s.leaked := by
+  simp only [step] at e; unfold put at e
+  split at e; · cases e
+  split at e; · cases e
+  rename_i b owned' ht
+  cases e
+  have hb := (takeOut_some ht).2.2.2
+  rw [ha] at hb; cases hb
+  exact ⟨rfl, rfl, rfl, rfl⟩
+
+/-- Nothing depends on the poison flag: two states that differ only in it (e.g. the pool before and after a
+    panicking `get*`) accept the same histories, return the same guards/arenas/errors at every call and end
+    in states that again differ at most in the flag. -/
+theorem poison_is_irrelevant {s t : State} (h : List Step) (e : s.unpoison = t.unpoison) :
+    (runLog s h).map erase' = (runLog t h).map erase' :=
+  runLog_congr h e
+
+/-- non-vacuity: guard 0 lives; a panicking get with no idle arena poisons the pool and creates nothing;
+    guard 0 is dropped AFTER the poisoning and its arena (with its contents) is idle again; the next
+    panicking get finds it and succeeds; reset still reaches it. -/
+example : (runLog init [.get 0 .ok, .alloc 0 5, .get 1 .panic, .put 0, .get 2 .panic, .alloc 2 6, .put 2, .reset]).toOption.map
+    (fun r => (r.1.created, r.1.poisoned, r.1.idle, (r.1.arenas 0).resets)) = some (1, true, [0], 1) := by decide
+
+example : (runLog init [.get 0 .ok, .alloc 0 5, .get 1 .panic, .put 0, .get 2 .panic, .alloc 2 6, .put 2, .reset]).toOption.map
+    (fun r => (peakLive r.2, r.2.map (·.2))) =
+    some (1, [.got 0 true, .done, .panicked, .done, .got 0 false, .done, .done, .done]) := by decide
 
 end C19
